@@ -7,6 +7,7 @@ CONSTANTS p = 37
  xneg = TRUE
  fam = "B12"
  n2 = 1417
+ CMax = 36
 SPECIFICATION Spec
 INVARIANT Check
 CHECK_DEADLOCK FALSE
